@@ -34,12 +34,14 @@ add("C06", "proof",
     "Lean 4 refinement proofs of a hand-written state machine + exhaustive history enumeration against the implementation", "DESIGN.md §6 C06")
 
 add("C02", "proof",
-    "Independent parser/validator PQ.parseFile written from the specification (magic, footer, thrift, schema tree, offsets, sizes, counts, codec, page record limits and boundaries, exact section lengths) is evaluated on every file the implementation writes for five structs (incl. nesting 3 deep and same-named groups), and the model writer's bytes equal the implementation's exactly; layout theorems (offsets truthful, sink-call shape) and page round-trip lemmas are proved over the model. The full statement validate(parseFile(run ops)) for all ops is not yet one theorem (partial): it is composed of the proved layer lemmas plus the correspondence.",
-    PROOF_NOTE, "Lean 4 layer theorems + independent validator as executable oracle + exact byte correspondence", "DESIGN.md §6 C02")
+    "Theorem PQ.C02.file_valid, the property's full statement over the model: for every field forest, every Add/Write/Close history, page size >= 1 and codec with a correct decompressor, the independent parser/validator PQ.parseFile (written from the specification: magic, footer, thrift, schema tree, offsets, sizes, counts, codec, page record limits and boundaries, exact section lengths) accepts the writer model's bytes and finds exactly the written records per row group (parseFile_runWriter_records composed with schema_valid); hypotheses: records are Dremel-striped, nesting <= 15, sizes below the format's 32-bit fields. Tie: the writer model's bytes equal the implementation's exactly on seven structs (incl. nesting 9 deep and same-named groups at different depths) and the validator is evaluated on every file the implementation writes.",
+    PROOF_NOTE,
+    "Lean 4 layer theorems + independent validator as executable oracle + exact byte correspondence", "DESIGN.md §6 C02")
 
 add("C01", "proof",
-    "Round trip decomposed into proved layers over the model (bit packing, RLE encode/decode, Dremel stripe/assemble, thrift encode/decode, PLAIN, page payload) and an executable writer+reader model whose bytes and read results equal the implementation's exactly on structurally enumerated and boundary-valued records of five structs, partitions around page boundaries, page sizes and three codecs; the implementation's read-back is compared with the input. The whole-file composition theorem is not yet a single theorem (partial); the two aliasing clauses are runtime facts explored by the harness only (mutation after Add, scanned records re-checked after later reads).",
-    PROOF_NOTE, "Lean 4 layer theorems + exact differential correspondence of writer and reader models", "DESIGN.md §6 C01")
+    "Theorem PQ.C01.roundtrip, the property's full statement over the models: for every field forest, history, page size >= 1 and codec with a correct decompressor, the reader model applied to the writer model's bytes reports Rows() = number of written records, Next() true exactly that many times, every Scan delivering the record's per-column entries (hence its projection), Error() nil (readAll_runWriter composed with schema_valid; extra hypothesis: joined column names pairwise distinct); layer theorems (levels, records, header, values incl. multi-page booleans, page, chunk). Tie: exact writer bytes and exact reader results on structurally enumerated and boundary-valued records of seven structs, partitions around page boundaries, page sizes, three codecs, single pages beyond 32 KiB, level streams of hundreds of values at every width, a 70 000-byte string. The two aliasing clauses are runtime facts explored by the harness only (mutation after Add, scanned records re-checked after later reads): partial.",
+    PROOF_NOTE,
+    "Lean 4 layer theorems + exact differential correspondence of writer and reader models", "DESIGN.md §6 C01")
 
 add("C08", "proof",
     "Theorem readFull_indep: io.ReadFull over any fragmentation schedule (any grants >= 1, EOF with or without data) returns exactly the requested bytes or fails exactly when fewer are available; lemma no_single_read_sites over the call-site inventory regenerated from the source on every run (every source read is ReadFull/CopyN/binary.Read, a Seek or a pass-through); the reader model consumes the source only through readExactly. Tie: the generated reader over a fragmenting ReadSeeker (fixed chunk sizes 1..17, seeded random short reads, data+EOF) on valid files of five structs x three codecs must give the unfragmented result.",
@@ -61,17 +63,18 @@ add("C11", "proof",
     PROOF_NOTE, "Lean 4 theorem under an explicit decidable hypothesis + exhaustive prefix enumeration", "DESIGN.md §6 C11")
 
 add("C04", "proof",
-    "Theorems: every output of the nondeterministic level segmenter (any RLE/bit-packed run mix, >63 groups, multi-byte headers, arbitrary padding values) is a well-formed encoding of the same levels and the library-decoder model returns those levels for it (segment_spec, levels_any_segmentation); every stream the nondeterministic snappy encoder can emit decodes to its input (snappy_roundtrip); unknown/optional thrift fields and statistics never change what the reader extracts. Tie: files from the independent Lean writer PQ.specWrite under seeded random legal choices (run segmentation, per-column page splits, per-column codec, Lean snappy streams with literals and copies, gzip stored blocks, optional/unknown fields) must be read back correctly by the generated reader and identically by the reader model; the files are validated by PQ.parseFile and the Lean compressors' output by the external decoders.",
-    PROOF_NOTE + " The whole-file theorem for foreign files (readAll (specWrite c records) = records for every legal c) is not one theorem; its level, codec and metadata layers are.",
+    "Theorem PQ.readAll_specWrite, the property's full statement over the models: for every choice stream (every run segmentation of every level stream of every page, every page split of every column at record boundaries), every per-column codec out of uncompressed/snappy/gzip with a correct decompressor, with or without statistics (complete or min/max only) and unknown/optional thrift fields, any row-group partition including row groups without rows, the reader model decodes the file of the independent writer PQ.specWrite to exactly the written records (Rows, Next count, per-Scan entries, no error); layer theorems: segment_spec, levels_any_segmentation, snappy_roundtrip (every literal/copy segmentation), unknown_fields_skipped, statistics_irrelevant. Tie: files from PQ.specWrite under seeded random legal choices must be read back correctly by the generated reader and identically by the reader model; the files are validated by PQ.parseFile and the Lean compressors' output by the external decoders.",
+    PROOF_NOTE + " Hypotheses of the whole-file theorem: column names resolve, level widths <= 4 bits, < 2^28 entries per chunk, file < 4 GiB. gzip variety is limited to stored blocks (inflate is Go's standard library).",
     "Lean 4 theorems about a nondeterministic conformant writer + differential correspondence on its files", "DESIGN.md §6 C04")
 
 add("C18", "proof",
-    "Theorems about the reader model: a page whose header is not a v1 data page with PLAIN values (and RLE levels where the column has levels) makes the chunk read fail with an error before any byte is interpreted as a value; other codecs are an error; with the check passed the header dereference is total. Tie: one-feature mutants of otherwise valid foreign files (dictionary/index/v2 page, value encodings 2-9, BIT_PACKED/PLAIN level encodings, codecs 3-7; every column [sampled in quick], both row groups, first and later page): the generated reader's outcome must be an error no later than the bad row group with no row of it delivered and no panic, and equal to the reader model's.",
-    PROOF_NOTE, "Lean 4 theorems about the reader model's validation + exhaustive one-feature mutants", "DESIGN.md §6 C18")
+    "Theorem PQ.readOutcome_specWrite_mutated, the property's full statement over the models: a file of the independent writer PQ.specWrite in which ONE page (any row group, any column, any existing page) carries an unsupported feature - dictionary/index/v2 page, a value encoding other than PLAIN, a non-RLE level encoding on a column that has those levels, a codec id > 2 - is refused by the reader model: NewParquetReader fails when the feature is in the first row group, otherwise exactly the records of the earlier row groups are delivered and Next then returns false with the error set; never a panic, never a row of the affected row group (also stated on the text line the driver prints: readAll_specWrite_mutated); page-level theorems checkPage_spec, required_refuses, optional_refuses, codec_refused. Tie: one-feature mutants of otherwise valid foreign files (feature x column [sampled in quick] x row group x page): the generated reader's outcome must be an error no later than the bad row group with no row of it delivered and no panic, and equal to the reader model's.",
+    PROOF_NOTE,
+    "Lean 4 theorems about the reader model's validation + exhaustive one-feature mutants", "DESIGN.md §6 C18")
 
 add("C16", "proof",
-    "Lean mirrors of ReadMetaData / PageHeaders / PageHeadersAtOffset compared field by field with the Go functions, and with the independent walk of PQ.parseFile (one header per data page in file order; from every page start, the shortest run of headers covering n, exactly one for n = 0); theorems: n = 0 returns exactly one header (needs num_values >= 0), readMetaData decodes exactly the bytes designated by the trailing length.",
-    PROOF_NOTE + " The general covering statement of PageHeadersAtOffset is decided by the correspondence and the walk, not by a theorem.",
+    "Theorem introspection_runWriter: for every file the writer model produces, ReadMetaData is the footer the independent parser decodes and PageHeaders is exactly one header per data page in file order with the walked counts and sizes; at_zero_one_header, meta_is_footer. Lean mirrors of ReadMetaData / PageHeaders / PageHeadersAtOffset are compared field by field with the Go functions and with the independent walk of PQ.parseFile (from every page start: the shortest run of headers covering n, exactly one for n = 0) on files with page headers from a few dozen bytes to > 128 KiB.",
+    PROOF_NOTE + " PageHeadersAtOffset for n > 0 beyond the first header is decided by the correspondence and the walk, not by a theorem.",
     "Lean 4 mirrors + independent walk as oracle", "DESIGN.md §6 C16")
 
 add("C13", "proof",
@@ -80,15 +83,16 @@ add("C13", "proof",
     "Lean 4 invariant proof over interleavings of a pool model + regenerated inventories + byte-equality runs", "DESIGN.md §6 C13")
 
 add("C14", "proof",
-    "Lean model of parse.Fields (getField's traversal, exportedness, tag parsing, embedded hoisting) compared exactly with parse.Fields (imported from the working tree) on Go source rendered from declarations: insertion of an excluded field at every position of every struct of four struct families with exotic Go types, and replacement of every contiguous run of fields by an embedded struct; the decorated struct's field tree must equal the plain struct's. Theorems over the model (excluded_inert, embed_eq_inline) as listed in evidence.",
+    "Lean model of parse.Fields (getField's traversal, exportedness, tag parsing, embedded hoisting, one field per declared name) with theorems excluded_inert(_many) (inserting excluded fields anywhere, at any nesting level, leaves the parsed tree unchanged), embed_eq_inline (replacing any run of fields by an embedded struct; acyclic declarations), tag_dash_anywhere, multi_name_split; compared exactly with parse.Fields (imported from the working tree) on Go source rendered from declarations: insertion of an excluded field (unexported names: ASCII, underscore, non-ASCII lower case, caseless scripts; exotic Go types incl. inline structs with tagged fields) at every position of every struct of five struct families, and replacement of every contiguous run of fields by an embedded struct; the decorated struct's field tree must equal the plain struct's.",
     PROOF_NOTE + " Everything after parsing is a function of the field tree and type names; byte-identical files for equal trees are observed on generated programs, not proved.",
     "Lean 4 model of the struct parser + exact differential correspondence", "DESIGN.md §6 C14")
 
 add("C15", "proof",
-    "Lean model of structs.Struct compared exactly (text) with the Go function on the footer schema of files written for every non-repeated shape; the regenerated struct parsed by parse.Fields must have the source struct's field tree; end to end: parquetgen -parquet on the file, compile, read the file back and compare with the written records. Theorems over the models (structOf/flatten/parseStruct) as listed in evidence.",
-    PROOF_NOTE, "Lean 4 models of struct regeneration and parsing + per-program validation", "DESIGN.md §6 C15")
+    "Theorem regenerate_written: for every non-repeated field forest with usable names, parsing (parse.Fields model) the struct text regenerated (structs.Struct model) from the footer schema written for it gives back the forest. Tie: the structs.Struct model is compared exactly (text) with the Go function on the footer schema of files written for every non-repeated shape; the regenerated struct parsed by parse.Fields must have the source struct's field tree; end to end: parquetgen -parquet on the file, compile, read the file back and compare with the written records.",
+    PROOF_NOTE,
+    "Lean 4 models of struct regeneration and parsing + per-program validation", "DESIGN.md §6 C15")
 
 add("C05", "proof",
-    "What is proved is about the generic model: for every struct shape (field forest) and all values the model writer's file validates and holds exactly the written records (file_valid), striping is lossless. What ties a shape to it is per-program validation: today's parquetgen is run twice on every shape of the corpus (all <= 3-node shapes + a fixed sample of 4-node shapes in quick; all 1209 shapes with <= 4 nodes in thorough), the output compiled, and the generated writer/reader compared with the model on structurally enumerated values (writer bytes, independent validation, reference striping, read-back). The generator fails for 256 of the 1209 shapes (known findings, exact shape lists); any other failing shape, or a listed shape failing differently, is a violation.",
+    "Proved about the generic model: for every struct shape (field forest) and all values the model writer's file validates and holds exactly the written records (file_valid), striping is lossless; proved about the generator's own level arithmetic (cmd/parquetgen/fields: MaxDef, MaxRep, MaxRepForDef, DefIndex, NilField, IsRep, mirrored loop for loop): it equals the Dremel maxima / the closed forms for every chain, tied exhaustively on all chains up to length 7. What ties a shape to the generic model is per-program validation: today's parquetgen is run twice on every shape of the corpus (all <= 3-node shapes + samples of 4/5-node and curated larger shapes in quick; all 1209 shapes with <= 4 nodes + more in thorough; plus struct definitions in Go's multi-name field syntax), the output compiled, and the generated writer/reader compared with the model on structurally enumerated values (writer bytes, independent validation, reference striping, read-back). The generator fails for a listed set of shapes (known findings, exact shape lists); any other failing shape, or a listed shape failing differently, is a violation.",
     PROOF_NOTE + " 'Compiles' is the Go compiler's verdict. The generator's string synthesis is not modelled.",
     "Lean 4 theorems for the generic model + translation validation per generated program", "DESIGN.md §6 C05")
